@@ -6,11 +6,31 @@ configuration (circuit with 0..k heralds of any photon number, loss, post-select
 equal-photon-number inputs) all four objects are built on the implementation and the relations the
 property states are evaluated impl-vs-impl (oracle); the Analyzer and QuickSampler outputs are
 also compared with the exact model (correspondence).
+
+Streams (in this order):
+  1. expected-mapping corpus — fixed circuits x every shape of `expected` the Analyzer accepts (single
+     State, list, tuple, empty list, duplicates, entries that are not accepted outputs — rejected by the
+     post-selection, wrong photon number, given with the heralded modes, wrong length — placed first /
+     middle / last, a different list per input, inputs without an entry, extra keys); error rate and
+     performance are computed independently from the Sampler distribution.
+  2. history corpus — the four objects live through one scripted history on one circuit family
+     (variants with the same U_full but other herald photons / herald output mode / herald input mode,
+     other n_modes, other size, lossy, a live Parameter, in-place growth of the circuit); for every class,
+     every reconfiguration and every ordered pair (A, B) of its public reads: read B, reconfigure,
+     read A, read B.
+  3. generated configurations (as before, now with generated `expected` shapes), model correspondence.
+  4. generated histories on generated circuit families (oracle-only: the model has no object state).
+Every read of a history is compared with (a) a fresh object of the same class built for the current
+configuration and (b) the story a fresh Sampler tells for it (conditioned distribution, accepted
+totals, squared amplitudes); sampling reads: support exactly, frequencies statistically.
 """
 
 from __future__ import annotations
 
 import json
+import math
+import os
+import random as pyrandom
 from fractions import Fraction
 
 import numpy as np
@@ -18,7 +38,7 @@ import numpy as np
 import circgen as cg
 import fockgen as fg
 import lightworks as lw
-from core import Ctx, ddmin, exc_class
+from core import GQ, Ctx, ddmin, exc_class
 from lightworks import emulator
 from props.c04 import get_eps
 
@@ -26,8 +46,13 @@ TRUSTED = [
     "Lean 4.33 kernel; axioms subset of {propext, Classical.choice, Quot.sound} (audited on every run)",
     "hand-written model LW.Model.Analysis / Dist / Fock tied to the code by this correspondence check",
     "thewalrus.perm; float rounding (1e-9); numpy mean/sum",
+    "histories: stdlib / numpy PRNG; frequency tests at 5.5 sigma (deterministic per seed)",
 ]
-ASSUMPTIONS = ["<= 4 user modes per level, total modes <= 9, <= 4 photons incl. heralds, <= 3 post-selection rules"]
+ASSUMPTIONS = ["<= 4 user modes per level, total modes <= 9, <= 4 photons incl. heralds, <= 3 post-selection rules",
+               "histories: 4-70 steps, <= 2 user photons, object state is not modelled (oracle-only)"]
+
+K_SAMPLE = 300  # draws of sample() per sampling read
+N_SAMPLE = 2000  # N of sample_N_outputs / sample_N_inputs per sampling read
 
 
 def gen_rules(rng, modes: int, nph: int) -> list:
@@ -43,6 +68,314 @@ def gen_rules(rng, modes: int, nph: int) -> list:
         cnt = sorted(set(rng.sample(range(nph + 2), rng.randint(1, 2))))
         rules.append([ms, cnt])
     return rules
+
+
+def gen_live_rules(rng, modes: int, nph: int) -> list:
+    """rules that leave at least two outputs of the given photon number (histories: few dead configurations)"""
+    for _ in range(5):
+        rules = gen_rules(rng, modes, nph)
+        if sum(rule_ok(rules, t) for t in fg.fock_all(modes, nph)) >= min(2, modes):
+            return rules
+    return []
+
+
+def make_ps(rules, form: str = "rules"):
+    """post-selection value in one of the accepted forms: None, a PostSelection, a predicate"""
+    if form == "fn":
+        rr = [[list(ms), list(cnt)] for ms, cnt in rules]
+        return lambda s, rr=rr: all(sum(s[m] for m in ms) in cnt for ms, cnt in rr)
+    if not rules:
+        return None
+    ps = lw.PostSelection()
+    for ms, cnt in rules:
+        ps.add(tuple(ms), tuple(cnt))
+    return ps
+
+
+def rule_ok(rules, s) -> bool:
+    return all(sum(s[m] for m in ms) in cnt for ms, cnt in rules)
+
+
+# --------------------------------------------------------------------------- the Sampler's story
+
+
+def sampler_dist(c, s) -> dict:
+    d = emulator.Sampler(c, lw.State(s)).probability_distribution
+    return {tuple(k.s): float(v) for k, v in d.items()}
+
+
+def accepted(sd: dict, hout: dict, rules) -> dict:
+    """heralded outputs that satisfy the heralds and the post-selection (any photon number), with the
+    Sampler's probability"""
+    acc: dict = {}
+    for k, p in sd.items():
+        if any(k[m] != v for m, v in hout.items()):
+            continue
+        u = tuple(x for i, x in enumerate(k) if i not in hout)
+        if rule_ok(rules, u):
+            acc[u] = acc.get(u, 0.0) + p
+    return acc
+
+
+def conditioned(sd: dict, hin: dict, hout: dict, rules, s0, pnr: bool) -> dict:
+    """Sampler distribution conditioned on heralds, post-selection, no lost photon (and <= 1 photon per
+    mode for threshold detection); not normalised"""
+    cond: dict = {}
+    tot_in = sum(s0) + sum(hin.values())
+    for k, p in sd.items():
+        if sum(k) != tot_in:  # a photon was lost
+            continue
+        if any(k[m] != v for m, v in hout.items()):
+            continue
+        u = tuple(x for i, x in enumerate(k) if i not in hout)
+        if not rule_ok(rules, list(u)):
+            continue
+        if not pnr and any(x > 1 for x in u):
+            continue
+        cond[u] = cond.get(u, 0.0) + p
+    return cond
+
+
+# --------------------------------------------------------------------------- `expected` mappings
+
+SHAPES = ["single", "single_non", "list1", "acc_list", "non_first", "non_middle", "non_last", "non_many_first",
+          "all_non", "dup", "dup_non_first", "empty", "tuple_non_first", "missing"]
+
+
+def expected_pools(c, s, rules, sd, lossless: bool):
+    """(accepted outputs by decreasing Sampler probability, kinds of states that are NOT accepted outputs)"""
+    hout = c.heralds["output"]
+    im, n = c.input_modes, sum(s)
+    acc = accepted(sd, hout, rules)
+    good = [list(u) for u, p in sorted(acc.items(), key=lambda kv: (-kv[1], kv[0])) if p > 1e-6]
+    non: dict = {}
+    rej = [t for k in ([n] if lossless else range(n + 1)) for t in fg.fock_all(im, k) if not rule_ok(rules, t)]
+    if rej:
+        non["rejected_by_post_selection"] = rej[:6]
+    non["more_photons"] = list(fg.fock_all(im, n + 1))[:4]
+    if n >= 1 and lossless:
+        non["fewer_photons"] = list(fg.fock_all(im, n - 1))[:4]
+    if hout and good:
+        non["with_herald_modes"] = [fg.add_heralds(good[0], hout)]
+    non["wrong_length"] = [[*(good[0] if good else list(s)), 0]]
+    return good, non
+
+
+def make_entry(ctx: Ctx, rng, shape: str, good: list, non: dict) -> dict:
+    def x():
+        kind = rng.choice(sorted(non))
+        ctx.count(f"expected:non_accepted:{kind}")
+        return list(rng.choice(non[kind]))
+
+    if not good:
+        good = [x()]
+    g = list(rng.choice(good[:3]))
+    others = [t for t in good[:6] if t != g]
+    g2 = list(rng.choice(others)) if others else g
+    form = "list"
+    if shape == "single":
+        form, sts = "state", [g]
+    elif shape == "single_non":
+        form, sts = "state", [x()]
+    elif shape == "list1":
+        sts = [g]
+    elif shape == "acc_list":
+        sts = [list(t) for t in rng.sample(good[:6], min(len(good[:6]), rng.randint(2, 3)))]
+    elif shape == "non_first":
+        sts = [x(), g] + ([g2] if rng.random() < 0.5 else [])
+    elif shape == "non_middle":
+        sts = [g, x(), g2]
+    elif shape == "non_last":
+        sts = [g] + ([g2] if rng.random() < 0.5 else []) + [x()]
+    elif shape == "non_many_first":
+        sts = [x(), x(), g]
+    elif shape == "all_non":
+        sts = [x(), x()]
+    elif shape == "dup":
+        sts = [g, g] if rng.random() < 0.5 else [g, g2, g]
+    elif shape == "dup_non_first":
+        y = x()
+        sts = [y, g, y, g2]
+    elif shape == "empty":
+        sts = []
+    elif shape == "tuple_non_first":
+        form, sts = "tuple", [x(), g]
+    elif shape == "missing":
+        form, sts = "missing", []
+    else:
+        raise AssertionError(shape)
+    return {"form": form, "shape": shape, "states": sts}
+
+
+def gen_expected_spec(ctx: Ctx, rng, c, ins, rules, sdist, lossless: bool, shapes=None) -> dict:
+    per = []
+    for i, (s, sd) in enumerate(zip(ins, sdist)):
+        good, non = expected_pools(c, s, rules, sd, lossless)
+        if shapes is not None:
+            shape = shapes[i % len(shapes)]
+        else:
+            shape = rng.choice(SHAPES[:-1]) if rng.random() < 0.94 else "missing"
+        per.append(make_entry(ctx, rng, shape, good, non))
+    extra = []
+    if rng.random() < 0.2:  # keys that are not inputs of this call are allowed and ignored
+        t = fg.rand_state(rng, c.input_modes, sum(ins[0]) + rng.choice([0, 1]))
+        if t not in ins:
+            extra.append(t)
+    return {"per_input": per, "extra": extra}
+
+
+def build_expected(spec: dict, ins) -> dict:
+    d: dict = {}
+    for s, e in zip(ins, spec["per_input"]):
+        if e["form"] == "missing":
+            continue
+        sts = [lw.State(t) for t in e["states"]]
+        d[lw.State(s)] = sts[0] if e["form"] == "state" else (tuple(sts) if e["form"] == "tuple" else sts)
+    for t in spec.get("extra", []):
+        d.setdefault(lw.State(t), lw.State(t))
+    return d
+
+
+def resolved_lists(spec: dict, ins) -> list:
+    """per input the list of expected states the dictionary holds for it (equal inputs share one entry,
+    the last assigned), None when the dictionary has no entry for the input"""
+    d: dict = {}
+    for s, e in zip(ins, spec["per_input"]):
+        if e["form"] != "missing":
+            d[tuple(s)] = [list(t) for t in e["states"]]
+    for t in spec.get("extra", []):
+        d.setdefault(tuple(t), [list(t)])
+    return [d.get(tuple(s)) for s in ins]
+
+
+def best_spec(c, ins, rules, sdist) -> dict:
+    """expected = the most likely accepted output of each input according to the sampler"""
+    hout = c.heralds["output"]
+    per = []
+    for s, d in zip(ins, sdist):
+        acc = accepted(d, hout, rules)
+        best, bp = None, -1.0
+        for u, p in acc.items():
+            if p > bp:
+                best, bp = list(u), p
+        per.append({"form": "state", "shape": "single", "states": [best if best is not None else list(s)]})
+    return {"per_input": per, "extra": []}
+
+
+# --------------------------------------------------------------------------- one analysis against the story
+
+
+def run_analyze(an, ins, expected, single_state: bool = False) -> dict:
+    try:
+        arg = lw.State(ins[0]) if single_state and len(ins) == 1 else [lw.State(s) for s in ins]
+        res = an.analyze(arg, expected)
+        er = None
+        if expected is not None:
+            er = float(res.error_rate)
+        return {"outputs": [list(o.s) for o in res.outputs], "probs": np.array(res.array, dtype=float),
+                "performance": float(res.performance), "error_rate": er,
+                "has_error_rate": hasattr(res, "error_rate")}
+    except Exception as e:  # noqa: BLE001
+        return {"error": exc_class(e), "msg": str(e)[:100]}
+
+
+def analyzer_problems(ctx: Ctx, c, ins, rules, sdist, impl_an: dict, exp_lists, eps) -> list[str]:
+    """the property's Analyzer clauses evaluated against the Sampler's distributions `sdist`"""
+    probs: list[str] = []
+    hin, hout = c.heralds["input"], c.heralds["output"]
+    nl = np.array(c.U_full).shape[0] - c.n_modes
+    missing = exp_lists is not None and any(e is None for e in exp_lists)
+    if missing:
+        ctx.count("expected:missing_input:oracle-only")
+        if "error" not in impl_an:
+            s = ins[[e is None for e in exp_lists].index(True)]
+            return [f"oracle: analyze reported error_rate {impl_an['error_rate']} although the expected mapping has no "
+                    f"entry for input {s}"]
+        if impl_an["error"] == "KeyError":
+            return []
+    if "error" in impl_an:
+        accepted_exists = any(rule_ok(rules, list(t)) for k in range(sum(ins[0]) + 1)
+                              for t in fg.fock_all(c.input_modes, k) if (nl or k == sum(ins[0])))
+        if accepted_exists:
+            probs.append(f"oracle: Analyzer.analyze raised {impl_an['error']} ({impl_an['msg']}) on a circuit the "
+                         f"Sampler accepts (heralds in={hin} out={hout})")
+        return probs
+    tol_p = 1e-9 + 2 * float(eps) * max(1, 8 ** nl)
+    outs = impl_an["outputs"]
+    if impl_an["probs"].shape != (len(ins), len(outs)):
+        return [f"oracle: analyzer array has shape {impl_an['probs'].shape} for {len(ins)} inputs and {len(outs)} outputs"]
+    for i, s in enumerate(ins):
+        row = impl_an["probs"][i]
+        for j, o in enumerate(outs):
+            full = tuple(fg.add_heralds(o, hout))
+            want = sdist[i].get(full, 0.0)
+            if abs(row[j] - want) > tol_p:
+                return [f"oracle: analyzer P({s}->{o}) = {row[j]:.9g} but the sampler gives {want:.9g} for {list(full)}"]
+            if not rule_ok(rules, o):
+                return [f"oracle: analyzer lists output {o} that fails the post-selection"]
+    # every accepted output the Sampler knows must be listed
+    acc = [accepted(sd, hout, rules) for sd in sdist]
+    listed = {tuple(o) for o in outs}
+    for i, a in enumerate(acc):
+        for u, p in a.items():
+            if u not in listed and p > 1e-7:
+                return [f"oracle: accepted output {list(u)} (sampler probability {p:.6g} for input {ins[i]}) is missing "
+                        f"from the analyzer's outputs"]
+    perf = float(np.mean(impl_an["probs"].sum(axis=1)))
+    if abs(perf - impl_an["performance"]) > 1e-9:
+        probs.append(f"oracle: performance {impl_an['performance']} is not the mean accepted total {perf}")
+    tots = [sum(a.values()) for a in acc]
+    if abs(float(np.mean(tots)) - impl_an["performance"]) > tol_p * (len(outs) + 1):
+        probs.append(f"oracle: performance {impl_an['performance']} is not the mean accepted total "
+                     f"{float(np.mean(tots))} of the Sampler distributions")
+    if exp_lists is None:
+        if impl_an.get("has_error_rate"):
+            probs.append("oracle: analyze without `expected` reports an error rate")
+        return probs
+    if impl_an["error_rate"] is None or missing:
+        return probs
+    # error rate: (1) from the analyzer's own rows, (2) independently from the Sampler distributions
+    errs, errs_s, tol_s = [], [], 1e-9
+    for i in range(len(ins)):
+        row = impl_an["probs"][i]
+        lst = exp_lists[i]
+        if len({tuple(t) for t in lst}) < len(lst):  # the expected outputs are a SET (F31)
+            ctx.count("expected:duplicates(counted once)")
+            lst = [list(t) for t in dict.fromkeys(tuple(t) for t in lst)]
+        if row.sum() <= 1e-6 or tots[i] <= 1e-6:
+            errs.append(float("nan"))
+            continue
+        errs.append(1 - sum(row[outs.index(e)] for e in lst if e in outs) / row.sum())
+        errs_s.append(1 - sum(acc[i].get(tuple(e), 0.0) for e in lst) / tots[i])
+        tol_s += (len(lst) + 1) * tol_p * (len(outs) + 1) / tots[i]
+    if any(np.isnan(e) for e in errs):
+        ctx.count("error_rate_undefined(0/0):oracle")
+        return probs
+    want, want_s = float(np.mean(errs)), float(np.mean(errs_s))
+    if abs(want - impl_an["error_rate"]) > 1e-9:
+        probs.append(f"oracle: error_rate {impl_an['error_rate']} != 1 - accepted-and-expected fraction {want} "
+                     f"(expected lists {exp_lists})")
+    elif abs(want_s - impl_an["error_rate"]) > tol_s / len(ins):
+        probs.append(f"oracle: error_rate {impl_an['error_rate']} != 1 - accepted-and-expected fraction {want_s} computed "
+                     f"from the Sampler distributions (expected lists {exp_lists})")
+    return probs
+
+
+def quick_problems(qd, qerr, cond: dict) -> list[str]:
+    ctot = sum(cond.values())
+    if qd is None:
+        if ctot > 1e-6:
+            return [f"oracle: QuickSampler raised {qerr} although accepted outputs carry probability {ctot:.6g}"]
+    elif ctot > 1e-7:
+        for u in sorted(set(cond) | set(qd)):
+            want = cond.get(u, 0.0) / ctot
+            if abs(qd.get(u, 0.0) - want) > 1e-6:
+                return [f"oracle: quick sampler P{list(u)} = {qd.get(u, 0):.9g} but the conditioned, renormalised "
+                        f"sampler distribution gives {want:.9g}"]
+    return []
+
+
+# --------------------------------------------------------------------------- generated configurations
 
 
 def gen_case(ctx: Ctx, rng):
@@ -62,23 +395,18 @@ def gen_case(ctx: Ctx, rng):
     ins = []
     for _ in range(rng.choice([1, 1, 2, 3])):
         s = fg.rand_state(rng, im, nph)
-        if s not in ins:
+        if s not in ins or rng.random() < 0.15:  # the same input may be listed twice
             ins.append(s)
     rules = gen_rules(rng, im, nph)
-    return {"prog": prog, "inputs": ins, "rules": rules, "pnr": rng.random() < 0.5, "with_expected": rng.random() < 0.6}
-
-
-def make_ps(rules):
-    if not rules:
-        return None
-    ps = lw.PostSelection()
-    for ms, cnt in rules:
-        ps.add(tuple(ms), tuple(cnt))
-    return ps
-
-
-def rule_ok(rules, s) -> bool:
-    return all(sum(s[m] for m in ms) in cnt for ms, cnt in rules)
+    case = {"prog": prog, "inputs": ins, "rules": rules, "pnr": rng.random() < 0.5, "with_expected": rng.random() < 0.7}
+    if case["with_expected"]:
+        try:
+            sdist = [sampler_dist(c, s) for s in ins]
+        except Exception:  # noqa: BLE001
+            return case  # run_case reports it
+        lossless = np.array(c.U_full).shape[0] == c.n_modes
+        case["expected_spec"] = gen_expected_spec(ctx, rng, c, ins, rules, sdist, lossless)
+    return case
 
 
 def run_case(ctx: Ctx, case: dict) -> list[str]:
@@ -95,107 +423,45 @@ def run_case(ctx: Ctx, case: dict) -> list[str]:
     hin, hout = c.heralds["input"], c.heralds["output"]
     n = c.n_modes
     nl = np.array(c.U_full).shape[0] - n
-    herald_modes = sorted(hout)
     # --- sampler distributions (reference for everything else)
     sdist = []
     for s in ins:
         try:
-            d = emulator.Sampler(c, lw.State(s)).probability_distribution
+            sdist.append(sampler_dist(c, s))
         except Exception as e:  # noqa: BLE001
             return [f"oracle: Sampler raised {exc_class(e)} on a circuit/input that is well-formed"]
-        sdist.append({tuple(k.s): float(v) for k, v in d.items()})
     # --- analyzer
     an = emulator.Analyzer(c)
-    ps = make_ps(rules)
+    ps = make_ps(rules, case.get("ps_form", "rules"))
     if ps is not None:
         an.post_selection = ps
-    expected = None
-    try:
-        res0 = None
-        if case["with_expected"]:
-            # expected = the most likely accepted output of each input according to the sampler
-            expected = {}
-            for s, d in zip(ins, sdist):
-                best, bp = None, -1.0
-                for k, p in d.items():
-                    if all(k[m] == v for m, v in hout.items()):
-                        u = [x for i, x in enumerate(k) if i not in hout]
-                        if rule_ok(rules, u) and p > bp:
-                            best, bp = u, p
-                expected[lw.State(s)] = lw.State(best if best is not None else s)
-        res = an.analyze([lw.State(s) for s in ins], expected)
-        arr = np.array(res.array, dtype=float)
-        aouts = [o.s for o in res.outputs]
-        impl_an = {"outputs": aouts, "probs": arr, "performance": float(res.performance),
-                   "error_rate": float(res.error_rate) if expected is not None else None}
-    except Exception as e:  # noqa: BLE001
-        impl_an = {"error": exc_class(e), "msg": str(e)[:100]}
-    if "error" in impl_an:
-        accepted_exists = any(rule_ok(rules, list(t)) for k in range(sum(ins[0]) + 1)
-                              for t in fg.fock_all(c.input_modes, k) if (nl or k == sum(ins[0])))
-        if accepted_exists:
-            probs.append(f"oracle: Analyzer.analyze raised {impl_an['error']} ({impl_an['msg']}) on a circuit the "
-                         f"Sampler accepts (heralds in={hin} out={hout})")
+    spec = exp_lists = expected = None
+    if case["with_expected"]:
+        spec = case.get("expected_spec") or best_spec(c, ins, rules, sdist)
+        if len(spec["per_input"]) != len(ins):
             return probs
-    else:
-        for i, s in enumerate(ins):
-            row = impl_an["probs"][i]
-            for j, o in enumerate(impl_an["outputs"]):
-                full = tuple(fg.add_heralds(o, hout))
-                want = sdist[i].get(full, 0.0)
-                if abs(row[j] - want) > 1e-9 + 2 * float(eps) * max(1, 8 ** nl):
-                    probs.append(f"oracle: analyzer P({s}->{o}) = {row[j]:.9g} but the sampler gives {want:.9g} for {list(full)}")
-                    return probs
-                if not rule_ok(rules, o):
-                    probs.append(f"oracle: analyzer lists output {o} that fails the post-selection")
-                    return probs
-        perf = float(np.mean(impl_an["probs"].sum(axis=1)))
-        if abs(perf - impl_an["performance"]) > 1e-9:
-            probs.append(f"oracle: performance {impl_an['performance']} is not the mean accepted total {perf}")
-        if expected is not None:
-            errs = []
-            for i, s in enumerate(ins):
-                row = impl_an["probs"][i]
-                e = expected[lw.State(s)].s
-                acc = row[impl_an["outputs"].index(e)] if e in impl_an["outputs"] else 0.0
-                errs.append(1 - acc / row.sum() if row.sum() > 1e-6 else float("nan"))
-            want = float(np.mean(errs))
-            if not np.isnan(want) and abs(want - impl_an["error_rate"]) > 1e-9:
-                probs.append(f"oracle: error_rate {impl_an['error_rate']} != 1 - accepted-and-expected fraction {want}")
+        expected = build_expected(spec, ins)
+        exp_lists = resolved_lists(spec, ins)
+        for e in spec["per_input"]:
+            ctx.count(f"expected:shape:{e.get('shape', e['form'])}")
+    impl_an = run_analyze(an, ins, expected)
+    probs += analyzer_problems(ctx, c, ins, rules, sdist, impl_an, exp_lists, eps)
+    if probs and "error" in impl_an:
+        return probs
+    missing = exp_lists is not None and any(e is None for e in exp_lists)
+    only_an = case.get("only") == "analyzer"
     # --- quick sampler vs conditioned sampler distribution
     s0 = ins[0]
-    try:
-        q = emulator.QuickSampler(c, lw.State(s0), photon_counting=case["pnr"], post_select=ps)
-        qd = {tuple(k.s): float(v) for k, v in q.probability_distribution.items()}
-        qerr = None
-    except Exception as e:  # noqa: BLE001
-        qd, qerr = None, exc_class(e)
-    cond = {}
-    tot_in = sum(s0) + sum(hin.values())
-    for k, p in sdist[0].items():
-        if sum(k) != tot_in:  # a photon was lost
-            continue
-        if any(k[m] != v for m, v in hout.items()):
-            continue
-        u = tuple(x for i, x in enumerate(k) if i not in hout)
-        if not rule_ok(rules, list(u)):
-            continue
-        if not case["pnr"] and any(x > 1 for x in u):
-            continue
-        cond[u] = cond.get(u, 0.0) + p
-    ctot = sum(cond.values())
-    if qd is None:
-        if ctot > 1e-6:
-            probs.append(f"oracle: QuickSampler raised {qerr} although accepted outputs carry probability {ctot:.6g}")
-    elif ctot > 1e-7:
-        for u in set(cond) | set(qd):
-            want = cond.get(u, 0.0) / ctot
-            if abs(qd.get(u, 0.0) - want) > 1e-6:
-                probs.append(f"oracle: quick sampler P{list(u)} = {qd.get(u, 0):.9g} but the conditioned, renormalised "
-                             f"sampler distribution gives {want:.9g}")
-                break
+    qd = qerr = None
+    if not only_an:
+        try:
+            q = emulator.QuickSampler(c, lw.State(s0), photon_counting=case["pnr"], post_select=ps)
+            qd = {tuple(k.s): float(v) for k, v in q.probability_distribution.items()}
+        except Exception as e:  # noqa: BLE001
+            qd, qerr = None, exc_class(e)
+        probs += quick_problems(qd, qerr, conditioned(sdist[0], hin, hout, rules, s0, case["pnr"]))
     # --- simulator vs sampler (lossless)
-    if nl == 0 and not probs:
+    if nl == 0 and not probs and not only_an:
         try:
             sim = emulator.Simulator(c).simulate([lw.State(s) for s in ins])
             for i, s in enumerate(ins):
@@ -209,26 +475,29 @@ def run_case(ctx: Ctx, case: dict) -> list[str]:
     if probs:
         return probs
     # --- correspondence with the model
-    m = ctx.model.call({"op": "fock", "what": "ana", "prog": case["prog"], "id": "c1", "rules": rules, "inputs": ins,
-                        "expected": None if expected is None else [[expected[lw.State(s)].s] for s in ins]})
-    if ("error" in impl_an) != ("error_class" in m):
-        probs.append(f"corr: analyze impl={impl_an.get('error', 'ok')} model={m.get('error_class', 'ok')}")
-    elif "error" not in impl_an:
-        if impl_an["outputs"] != m["outputs"]:
-            probs.append("corr: analyzer output list differs from the model")
-        else:
-            mp = np.array([[float(Fraction(x)) for x in r] for r in m["probs"]]).reshape(impl_an["probs"].shape)
-            if np.max(np.abs(mp - impl_an["probs"]), initial=0) > 1e-9:
-                probs.append("corr: analyzer probabilities differ from the model")
-            if abs(float(Fraction(m["performance"])) - impl_an["performance"]) > 1e-9:
-                probs.append("corr: performance differs from the model")
-            if expected is not None and (np.isnan(impl_an["error_rate"]) or impl_an["probs"].sum(axis=1).min() < 1e-6):
-                # an input with zero accepted probability: the code divides 0/0 (NaN); the model's
-                # rational division is total, so the error rate is only compared when defined
-                ctx.count("error_rate_undefined(0/0)")
-            elif expected is not None and m["error_rate"] is not None and \
-                    abs(float(Fraction(m["error_rate"])) - impl_an["error_rate"]) > 1e-9:
-                probs.append("corr: error_rate differs from the model")
+    if not missing:
+        m = ctx.model.call({"op": "fock", "what": "ana", "prog": case["prog"], "id": "c1", "rules": rules, "inputs": ins,
+                            "expected": exp_lists})
+        if ("error" in impl_an) != ("error_class" in m):
+            probs.append(f"corr: analyze impl={impl_an.get('error', 'ok')} model={m.get('error_class', 'ok')}")
+        elif "error" not in impl_an:
+            if impl_an["outputs"] != m["outputs"]:
+                probs.append("corr: analyzer output list differs from the model")
+            else:
+                mp = np.array([[float(Fraction(x)) for x in r] for r in m["probs"]]).reshape(impl_an["probs"].shape)
+                if np.max(np.abs(mp - impl_an["probs"]), initial=0) > 1e-9:
+                    probs.append("corr: analyzer probabilities differ from the model")
+                if abs(float(Fraction(m["performance"])) - impl_an["performance"]) > 1e-9:
+                    probs.append("corr: performance differs from the model")
+                if expected is not None and (np.isnan(impl_an["error_rate"]) or impl_an["probs"].sum(axis=1).min() < 1e-6):
+                    # an input with zero accepted probability: the code divides 0/0 (NaN); the model's
+                    # rational division is total, so the error rate is only compared when defined
+                    ctx.count("error_rate_undefined(0/0)")
+                elif expected is not None and m["error_rate"] is not None and \
+                        abs(float(Fraction(m["error_rate"])) - impl_an["error_rate"]) > 1e-9:
+                    probs.append("corr: error_rate differs from the model")
+    if only_an:
+        return probs
     mq = ctx.model.call({"op": "fock", "what": "quick", "prog": case["prog"], "id": "c1", "rules": rules,
                          "input": s0, "pnr": case["pnr"], "eps": f"{eps.numerator}/{eps.denominator}"})
     if (qd is None) != ("error_class" in mq):
@@ -242,12 +511,731 @@ def run_case(ctx: Ctx, case: dict) -> list[str]:
     return probs
 
 
+# --------------------------------------------------------------------------- fixed circuits (corpora)
+
+_I = GQ(0, 1)
+
+
+def _bs(m1, m2, a, b, conv="Rx", loss=None):
+    return cg.op_bs("c1", m1, m2, Fraction(a[0], a[1]), Fraction(b[0], b[1]), conv, loss)
+
+
+def _base4() -> list:
+    return [["new", "c1", 4], ["pbs", "c1", 0, 1, "p"], _bs(1, 2, (3, 5), (4, 5)), _bs(2, 3, (4, 5), (3, 5), "H"),
+            cg.op_ps("c1", 1, _I), _bs(0, 1, (5, 13), (12, 13)), _bs(1, 3, (3, 5), (4, 5))]
+
+
+def corpus_family() -> dict:
+    """variants that share the 4-mode network: same U_full, other herald photons (B) / herald output
+    mode (C) / herald input mode (F); no herald (D); lossy (E); other n_modes with the same input length
+    (G); other size (H); two heralds, one with photon (J) and the same with the photon on the other (K)"""
+    b = _base4()
+    loss = cg.op_loss("c1", 1, Fraction(4, 5), Fraction(3, 5))
+    return {
+        "circuits": {
+            "A": [*b, ["herald", "c1", 1, 3, 3]],
+            "B": [*b, ["herald", "c1", 0, 3, 3]],
+            "C": [*b, ["herald", "c1", 1, 3, 0]],
+            "F": [*b, ["herald", "c1", 1, 0, 3]],
+            "D": list(b),
+            "E": [*b, loss, ["herald", "c1", 1, 3, 3]],
+            "G": [["new", "c1", 3], ["pbs", "c1", 1, 2, "p"], _bs(0, 1, (3, 5), (4, 5)), _bs(1, 2, (5, 13), (12, 13))],
+            "H": [["new", "c1", 2], _bs(0, 1, (4, 5), (3, 5))],
+            "J": [*b, ["herald", "c1", 1, 3, 3], ["herald", "c1", 0, 0, 0]],
+            "K": [*b, ["herald", "c1", 0, 3, 3], ["herald", "c1", 1, 0, 0]],
+        },
+        "params": {"p": 0.3},
+    }
+
+
+def expected_corpus(ctx: Ctx) -> list:
+    """fixed circuits x every expected shape (first input) and a different shape on the second input"""
+    rng = pyrandom.Random("C05-expected-corpus")
+    b = [op for op in _base4() if op[0] != "pbs"]
+    loss = cg.op_loss("c1", 1, Fraction(4, 5), Fraction(3, 5))
+    confs = [
+        ([*b, ["herald", "c1", 1, 3, 3]], [[1, 1, 0], [0, 1, 1]], [[[0], [0, 1]]]),
+        ([*b, ["herald", "c1", 1, 3, 0]], [[1, 0, 0], [0, 0, 1], [0, 1, 0]], [[[2], [0]]]),
+        ([*b, loss, ["herald", "c1", 0, 2, 2]], [[1, 1, 0], [2, 0, 0]], [[[0, 1], [1, 2]]]),
+        (b, [[1, 0, 1, 0], [0, 1, 1, 0]], []),
+    ]
+    cases = []
+    for prog, ins, rules in confs:
+        c = fg.build_impl(prog)["c1"]
+        sdist = [sampler_dist(c, s) for s in ins]
+        lossless = np.array(c.U_full).shape[0] == c.n_modes
+        for k, shape in enumerate(SHAPES):
+            for first in (True, False):
+                other = SHAPES[(k + 3) % (len(SHAPES) - 1)]
+                shapes = [shape, other, "single"] if first else [other, shape, "acc_list"]
+                spec = gen_expected_spec(ctx, rng, c, ins, rules, sdist, lossless, shapes=shapes)
+                cases.append({"prog": prog, "inputs": ins, "rules": rules, "pnr": True, "with_expected": True,
+                              "expected_spec": spec, "only": "analyzer", "ps_form": "fn" if k % 4 == 3 else "rules"})
+    return cases
+
+
+# --------------------------------------------------------------------------- histories
+
+READS = {
+    "sim": ["simulate", "simulate_outs"],
+    "smp": ["pd", "sample", "sno", "sni"],
+    "an": ["analyze", "analyze_exp"],
+    "qs": ["pd", "sample", "sno"],
+}
+CLASS = {"sim": "Simulator", "smp": "Sampler", "an": "Analyzer", "qs": "QuickSampler"}
+
+
+def build_circ(prog: list, params: dict):
+    pool: dict = {}
+    for op in prog:
+        if op[0] == "pbs":
+            try:
+                pool[op[1]].bs(op[2], op[3], reflectivity=params[op[4]])
+            except Exception:  # noqa: BLE001, S110
+                pass
+        else:
+            cg.apply_op(pool, op)
+    return pool.get("c1")
+
+
+def config_ok(c, cur: dict) -> bool:
+    if c is None:
+        return False
+    im, ins = c.input_modes, cur["inputs"]
+    if im < 1 or not ins or any(len(s) != im for s in ins) or len({sum(s) for s in ins}) != 1:
+        return False
+    if any(m >= im for ms, _ in cur["rules"] for m in ms):
+        return False
+    if np.array(c.U_full).shape[0] > 8:
+        return False
+    return sum(ins[0]) + fg.herald_photons(c) <= 4
+
+
+def freq_problem(counts: dict, total: int, dist: dict, what: str) -> str | None:
+    """support exactly, frequencies at 5.5 sigma"""
+    for u, k in sorted(counts.items()):
+        if dist.get(u, 0.0) <= 1e-9:
+            return (f"{what} returned {list(u)} ({k} of {total} draws), an output of probability 0 in the distribution "
+                    f"the Sampler gives for the current configuration")
+    for u, p in sorted(dist.items()):
+        f = counts.get(u, 0) / total
+        if abs(f - p) > 5.5 * math.sqrt(max(p * (1 - p), 0.0) / total) + 1.5 / total:
+            return (f"{what}: frequency of {list(u)} is {f:.4f} over {total} draws, the distribution the Sampler gives "
+                    f"for the current configuration has {p:.4f}")
+    return None
+
+
+def _close_dict(a: dict, b: dict, tol: float) -> bool:
+    return all(abs(a.get(k, 0.0) - b.get(k, 0.0)) <= tol for k in set(a) | set(b))
+
+
+def same_obs(a, b) -> bool:
+    """two observations of a deterministic read"""
+    if a[0] != b[0]:
+        return False
+    if a[0] == "err":
+        return a[1] == b[1]
+    x, y = a[1], b[1]
+    if isinstance(x, dict) and "probs" in x:
+        return (x["outputs"] == y["outputs"] and x["probs"].shape == y["probs"].shape
+                and bool(np.all(np.abs(x["probs"] - y["probs"]) <= 1e-9))
+                and abs(x["performance"] - y["performance"]) <= 1e-9
+                and (x["error_rate"] is None) == (y["error_rate"] is None)
+                and (x["error_rate"] is None or abs(x["error_rate"] - y["error_rate"]) <= 1e-9
+                     or (np.isnan(x["error_rate"]) and np.isnan(y["error_rate"]))))
+    if isinstance(x, dict) and "amps" in x:
+        return x["outputs"] == y["outputs"] and x["amps"].shape == y["amps"].shape and \
+            bool(np.all(np.abs(x["amps"] - y["amps"]) <= 1e-9))
+    if isinstance(x, dict):
+        return _close_dict(x, y, 1e-9)
+    return x == y
+
+
+class History:
+    """four long-lived objects driven through one history; every read is judged on the spot"""
+
+    def __init__(self, ctx: Ctx, case: dict) -> None:
+        self.ctx = ctx
+        fam = case["family"]
+        self.progs = {k: list(v) for k, v in fam["circuits"].items()}
+        self.pvals = dict(fam.get("params", {}))
+        self.live_params = {k: lw.Parameter(v) for k, v in self.pvals.items()}
+        self.live = {k: build_circ(p, self.live_params) for k, p in self.progs.items()}
+        self.cur = {k: (json.loads(json.dumps(v)) if isinstance(v, list) else v) for k, v in case["init"].items()}
+        self.eps = get_eps()
+        self.refs: dict = {}
+        self.changed = False
+        self.useful = 0
+
+    # -- the current configuration, told by fresh objects
+    def fresh_circuit(self, name: str):
+        return build_circ(self.progs[name], {k: lw.Parameter(v) for k, v in self.pvals.items()})
+
+    def ref(self) -> dict | None:
+        cur = self.cur
+        key = json.dumps([cur["circuit"], len(self.progs[cur["circuit"]]), sorted(self.pvals.items()), cur["inputs"]])
+        if key not in self.refs:
+            c = self.fresh_circuit(cur["circuit"])
+            try:
+                r = {"c": c, "sd": [sampler_dist(c, s) for s in cur["inputs"]],
+                     "hin": c.heralds["input"], "hout": c.heralds["output"],
+                     "nl": np.array(c.U_full).shape[0] - c.n_modes, "im": c.input_modes}
+            except Exception:  # noqa: BLE001
+                r = None
+            self.refs[key] = r
+        return self.refs[key]
+
+    def ps(self):
+        return make_ps(self.cur["rules"], self.cur.get("ps_form", "rules"))
+
+    def make_objects(self, c) -> dict:
+        cur = self.cur
+        s0 = lw.State(cur["inputs"][0])
+        an = emulator.Analyzer(c)
+        if cur["rules"] or cur.get("ps_form") == "fn":
+            an.post_selection = self.ps()
+        return {"sim": emulator.Simulator(c), "smp": emulator.Sampler(c, s0), "an": an,
+                "qs": emulator.QuickSampler(c, s0, photon_counting=cur["pnr"], post_select=self.ps())}
+
+    def make_one(self, c, obj: str):
+        cur = self.cur
+        s0 = lw.State(cur["inputs"][0])
+        if obj == "sim":
+            return emulator.Simulator(c)
+        if obj == "smp":
+            return emulator.Sampler(c, s0)
+        if obj == "an":
+            an = emulator.Analyzer(c)
+            if cur["rules"] or cur.get("ps_form") == "fn":
+                an.post_selection = self.ps()
+            return an
+        return emulator.QuickSampler(c, s0, photon_counting=cur["pnr"], post_select=self.ps())
+
+    # -- reconfigurations
+    def apply(self, st: list) -> bool:
+        """apply one reconfiguration to the long-lived objects; False = step not applicable (ignored)"""
+        cur, o = self.cur, self.objs
+        kind = st[0]
+        if kind == "circuit":
+            _, name, inputs, rules, order = st
+            if name not in self.live:
+                return False
+            new = dict(cur, circuit=name, inputs=inputs if inputs is not None else cur["inputs"],
+                       rules=rules if rules is not None else cur["rules"])
+            if not config_ok(self.fresh_circuit(name), new):
+                return False
+            old_im = self.live[cur["circuit"]].input_modes
+            c = self.live[name]
+            s0 = new["inputs"][0]
+            input_changes = s0 != cur["inputs"][0]
+            o["sim"].circuit = c
+            o["an"].circuit = c
+            for k in ("smp", "qs"):
+                if input_changes and order == "input_first" and len(s0) == old_im:
+                    o[k].input_state = lw.State(s0)
+                    o[k].circuit = c
+                else:
+                    o[k].circuit = c
+                    if input_changes:
+                        o[k].input_state = lw.State(s0)
+            self.cur = new
+            if rules is not None:
+                o["an"].post_selection = self.ps()
+                o["qs"].post_select = self.ps()
+        elif kind == "inputs":
+            new = dict(cur, inputs=st[1])
+            if not config_ok(self.fresh_circuit(cur["circuit"]), new):
+                return False
+            self.cur = new
+            for k in ("smp", "qs"):
+                o[k].input_state = lw.State(st[1][0])
+        elif kind == "ps":
+            new = dict(cur, rules=st[1], ps_form=st[2])
+            if not config_ok(self.fresh_circuit(cur["circuit"]), new):
+                return False
+            self.cur = new
+            o["an"].post_selection = self.ps()
+            o["qs"].post_select = self.ps()
+        elif kind == "pnr":
+            self.cur = dict(cur, pnr=bool(st[1]))
+            o["qs"].photon_counting = bool(st[1])
+        elif kind == "param":
+            if st[1] not in self.live_params:
+                return False
+            self.pvals[st[1]] = st[2]
+            self.live_params[st[1]].set(st[2])
+        elif kind == "mutate":
+            op = st[1]
+            if op[0] not in ("bs", "ps", "loss", "swaps", "barrier") or op[1] != "c1":
+                return False
+            trial = [*self.progs[cur["circuit"]], op]
+            if not config_ok(build_circ(trial, {k: lw.Parameter(v) for k, v in self.pvals.items()}), cur):
+                return False
+            self.progs[cur["circuit"]] = trial
+            cg.apply_op({"c1": self.live[cur["circuit"]]}, op)
+        else:
+            raise AssertionError(kind)
+        self.ctx.count(f"history:reconf:{kind}")
+        return True
+
+    # -- reads
+    def read_args(self, obj: str, method: str, seed: int, ref: dict) -> dict:
+        cur = self.cur
+        r = pyrandom.Random(f"args-{seed}")
+        args: dict = {}
+        if obj == "sim" and method == "simulate_outs":
+            allo = list(fg.fock_all(ref["im"], sum(cur["inputs"][0])))
+            args["outs"] = [list(r.choice(allo)) for _ in range(r.randint(1, 3))]
+        if obj == "an":
+            args["single"] = seed % 3 == 0
+            if method == "analyze_exp":
+                spec = gen_expected_spec(self.ctx, r, ref["c"], cur["inputs"], cur["rules"], ref["sd"], ref["nl"] == 0)
+                for e in spec["per_input"]:  # inputs without an entry belong to the first stream
+                    if e["form"] == "missing":
+                        e["form"], e["states"] = "list", []
+                args["spec"] = spec
+        return args
+
+    def do_read(self, o, obj: str, method: str, seed: int, args: dict):
+        cur = self.cur
+        try:
+            if obj == "sim":
+                outs = None if method == "simulate" else [lw.State(t) for t in args["outs"]]
+                res = o.simulate([lw.State(s) for s in cur["inputs"]], outs)
+                return ("ok", {"outputs": [list(x.s) for x in res.outputs], "amps": np.array(res.array, dtype=complex)})
+            if obj == "an":
+                spec = args.get("spec")
+                exp = None if spec is None else build_expected(spec, cur["inputs"])
+                r = run_analyze(o, cur["inputs"], exp, single_state=args["single"])
+                return ("err", r["error"]) if "error" in r else ("ok", r)
+            if method == "pd":
+                return ("ok", {tuple(k.s): float(v) for k, v in o.probability_distribution.items()})
+            if method == "sample":
+                pyrandom.seed(seed)
+                cnt: dict = {}
+                for _ in range(K_SAMPLE):
+                    u = tuple(o.sample().s)
+                    cnt[u] = cnt.get(u, 0) + 1
+                return ("ok", cnt)
+            if obj == "qs":
+                res = o.sample_N_outputs(N_SAMPLE, seed=seed)
+            elif method == "sno":
+                res = o.sample_N_outputs(N_SAMPLE, post_select=self.ps(), seed=seed)
+            else:
+                res = o.sample_N_inputs(N_SAMPLE, post_select=self.ps(), seed=seed)
+            return ("ok", {tuple(k.s): int(v) for k, v in res.items()})
+        except Exception as e:  # noqa: BLE001
+            return ("err", exc_class(e))
+
+    def judge(self, obj: str, method: str, seed: int) -> list[str]:
+        ctx, cur = self.ctx, self.cur
+        ref = self.ref()
+        if ref is None:
+            ctx.count("history:reference_failed")
+            return []
+        what = f"{CLASS[obj]}.{method}"
+        args = self.read_args(obj, method, seed, ref)
+        got = self.do_read(self.objs[obj], obj, method, seed, args)
+        ctx.count(f"history:read:{obj}.{method}" + (":after_change" if self.changed else ""))
+        if self.changed:
+            self.useful += 1
+        # (b) the story of the other objects (through a fresh Sampler); (a) a fresh object of the same class
+        probs = self.story(obj, method, got, ref, args, what)
+        if not probs and (method != "sample" or got[0] == "err"):
+            fresh = self.do_read(self.make_one(ref["c"], obj), obj, method, seed, args)
+            if not same_obs(got, fresh):
+                probs = [f"oracle: history: long-lived {what} gives {_short(got)} but a fresh {CLASS[obj]} built for the "
+                         f"current configuration gives {_short(fresh)}"]
+        return probs
+
+    def story(self, obj: str, method: str, got, ref: dict, args: dict, what: str) -> list[str]:
+        ctx, cur = self.ctx, self.cur
+        sd0, hin, hout, rules = ref["sd"][0], ref["hin"], ref["hout"], cur["rules"]
+        s0 = cur["inputs"][0]
+        acc = accepted(sd0, hout, rules)
+        tot = sum(acc.values())
+        cond = conditioned(sd0, hin, hout, rules, s0, cur["pnr"])
+        ctot = sum(cond.values())
+        if got[0] == "err":
+            justified = {
+                "sim": False,
+                "an": not any(rule_ok(rules, list(t)) for k in range(sum(s0) + 1)
+                              for t in fg.fock_all(ref["im"], k) if (ref["nl"] or k == sum(s0))),
+                "qs": ctot <= 1e-6,
+                "smp": method in ("sno",) and tot <= 1e-6,
+            }[obj]
+            if not justified:
+                return [f"oracle: history: {what} raised {got[1]} on a configuration the Sampler accepts "
+                        f"(accepted probability {tot:.6g}, heralds in={hin} out={hout})"]
+            ctx.count(f"history:read_refused_consistently:{obj}")
+            return []
+        val = got[1]
+        if obj == "smp":
+            if method == "pd":
+                if not _close_dict(val, sd0, 1e-9):
+                    return [f"oracle: history: {what} differs from the distribution of a fresh Sampler"]
+            elif method == "sample":
+                p = freq_problem(val, K_SAMPLE, sd0, f"history: {what}()")
+                return [f"oracle: {p}"] if p else []
+            elif method == "sno":
+                if tot > 1e-4:
+                    p = freq_problem(val, N_SAMPLE, {u: q / tot for u, q in acc.items()}, f"history: {what}")
+                    return [f"oracle: {p}"] if p else []
+            else:
+                if sum(val.values()) > N_SAMPLE:
+                    return [f"oracle: history: {what} returned more than N states"]
+                p = freq_problem(val, N_SAMPLE, acc, f"history: {what}")
+                return [f"oracle: {p}"] if p else []
+        elif obj == "qs":
+            if method == "pd":
+                return [p.replace("oracle: ", "oracle: history: ") for p in quick_problems(val, None, cond)]
+            if ctot > 1e-7:
+                n = K_SAMPLE if method == "sample" else N_SAMPLE
+                p = freq_problem(val, n, {u: q / ctot for u, q in cond.items()}, f"history: {what}")
+                return [f"oracle: {p}"] if p else []
+        elif obj == "an":
+            spec = args.get("spec")
+            exp_lists = None if spec is None else resolved_lists(spec, cur["inputs"])
+            return [p.replace("oracle: ", "oracle: history: ")
+                    for p in analyzer_problems(ctx, ref["c"], cur["inputs"], rules, ref["sd"], val, exp_lists, self.eps)]
+        elif ref["nl"] == 0:
+            for i, s in enumerate(cur["inputs"]):
+                for j, t in enumerate(val["outputs"]):
+                    full = tuple(fg.add_heralds(t, hout))
+                    if abs(abs(val["amps"][i, j]) ** 2 - ref["sd"][i].get(full, 0.0)) > 1e-9 + 2 * float(self.eps):
+                        return [f"oracle: history: |simulator amplitude|^2 for {s}->{t} differs from the sampler probability"]
+        return []
+
+    def run(self, steps: list) -> list[str]:
+        c = self.live.get(self.cur["circuit"])
+        if any(v is None for v in self.live.values()) or not config_ok(c, self.cur):
+            return []
+        try:
+            self.objs = self.make_objects(c)
+        except Exception as e:  # noqa: BLE001
+            return [f"oracle: history: constructing the four objects raised {exc_class(e)} on a well-formed configuration"]
+        for k, st in enumerate(steps):
+            if st[0] == "read":
+                if st[1] not in READS or st[2] not in READS[st[1]]:
+                    continue
+                probs = self.judge(st[1], st[2], int(st[3]))
+                if probs:
+                    return [f"{p} [step {k}: {st}; configuration {json.dumps(self.cur)}]" for p in probs]
+            else:
+                try:
+                    if self.apply(st):
+                        self.changed = True
+                except Exception as e:  # noqa: BLE001
+                    return [f"oracle: history: step {k} {st} raised {exc_class(e)} although the configuration it leads to "
+                            f"is accepted by fresh objects"]
+        return []
+
+
+def _short(obs) -> str:
+    if obs[0] == "err":
+        return f"raises {obs[1]}"
+    v = obs[1]
+    if isinstance(v, dict) and "probs" in v:
+        return (f"outputs {v['outputs'][:4]}.. row0 {np.round(v['probs'][0][:4], 6).tolist()}.. performance "
+                f"{v['performance']:.6g} error_rate {v['error_rate']}")
+    if isinstance(v, dict) and "amps" in v:
+        return f"amplitudes {np.round(v['amps'][0][:4], 6).tolist()}.."
+    if isinstance(v, dict):
+        return "{" + ", ".join(f"{list(k)}: {x:.6g}" for k, x in sorted(v.items())[:5]) + ("..}" if len(v) > 5 else "}")
+    return str(v)[:120]
+
+
+def run_history(ctx: Ctx, case: dict) -> list[str]:
+    h = History(ctx, case)
+    probs = h.run(case["steps"])
+    case["_useful_reads"] = h.useful
+    return probs
+
+
+def _pairs_history(obj: str, methods: list, reconf, seed0: int) -> list:
+    """for every ordered pair (A, B) of reads: B, reconfigure, A, B"""
+    steps = []
+    k = seed0
+    for a in methods:
+        for b in methods:
+            k += 1
+            steps += [["read", obj, b, 3 * k], reconf(), ["read", obj, a, 3 * k + 1], ["read", obj, b, 3 * k + 2]]
+    return steps
+
+
+def history_corpus() -> list:
+    fam = corpus_family()
+    in3 = [[[1, 1, 0], [0, 1, 1]], [[1, 0, 1], [2, 0, 0]], [[0, 1, 0], [1, 0, 0], [0, 0, 1]], [[0, 2, 0]]]
+    rules3 = [[[[0], [0, 1]]], [[[1], [1]]], [], [[[0, 2], [1]], [[1], [0, 1]]]]
+    muts = [_bs(0, 1, (3, 5), (4, 5)), cg.op_ps("c1", 2, _I), _bs(1, 2, (4, 5), (3, 5), "H"), _bs(0, 2, (5, 13), (12, 13))]
+
+    def toggler(kind: str):
+        state = {"k": 0}
+
+        def nxt():
+            state["k"] += 1
+            k = state["k"]
+            if kind == "inputs":
+                return ["inputs", in3[k % len(in3)]]
+            if kind.startswith("circ:"):
+                a, b = kind[5:].split("/")
+                name = b if k % 2 else a
+                if name == "H":
+                    return ["circuit", "H", [[1, 1], [2, 0]], [], "circuit_first"]
+                if name == "D":
+                    return ["circuit", "D", [[1, 0, 1, 0], [0, 1, 1, 0]], [[[0], [0, 1]]], "circuit_first"]
+                if name in ("J", "K"):
+                    return ["circuit", name, [[1, 1], [2, 0]], [], "input_first" if k % 4 < 2 else "circuit_first"]
+                if cur_len[0] != 3:
+                    cur_len[0] = 3
+                    return ["circuit", name, in3[0], rules3[0], "circuit_first"]
+                return ["circuit", name, None if k % 3 else in3[k % len(in3)], None,
+                        "input_first" if k % 2 else "circuit_first"]
+            if kind == "ps":
+                return ["ps", rules3[k % len(rules3)], "fn" if k % 5 == 0 else "rules"]
+            if kind == "pnr":
+                return ["pnr", k % 2 == 0]
+            if kind == "param":
+                return ["param", "p", [0.3, 0.8, 0.55, 1.0][k % 4]]
+            return ["mutate", muts[k % len(muts)]]
+
+        cur_len = [3]
+
+        def wrapped():
+            st = nxt()
+            if st[0] == "circuit" and st[2] is not None:
+                cur_len[0] = len(st[2][0])
+            return st
+
+        return wrapped
+
+    kinds = ["inputs", "circ:A/B", "circ:A/C", "circ:A/F", "circ:A/G", "circ:A/H", "circ:A/E", "circ:A/D", "circ:J/K",
+             "ps", "pnr", "param", "mutate"]
+    skip = {"sim": {"ps", "pnr"}, "an": {"pnr"}, "smp": {"pnr"}, "qs": set()}
+    cases = []
+    seed0 = 0
+    for obj in ("qs", "smp", "an", "sim"):
+        for kind in kinds:
+            if kind in skip[obj]:
+                continue
+            seed0 += 100
+            start = kind[5:].split("/")[0] if kind.startswith("circ:") else "A"
+            init = {"circuit": start, "inputs": in3[0] if start != "J" else [[1, 1], [0, 2]],
+                    "rules": rules3[0] if start != "J" else [], "ps_form": "rules", "pnr": True}
+            cases.append({"kind": "history", "name": f"{obj}:{kind}", "family": fam, "init": init,
+                          "steps": _pairs_history(obj, READS[obj], toggler(kind), seed0)})
+    return cases
+
+
+def gen_family(ctx: Ctx, rng):
+    """a generated network and herald re-declarations of it (same U_full), a lossy variant, an unrelated
+    circuit; returns (family, {name: (input_modes, addressable modes)})"""
+    for _ in range(8):
+        base = fg.gen_circuit(ctx, rng, max_depth=rng.choice([0, 1, 1, 2]), max_n=4, max_herald_photons=1)
+        p0 = [op for op in base if not (op[0] == "herald" and op[1] == "c1")]
+        if not p0 or p0[0][0] != "new" or p0[0][1] != "c1":
+            continue
+        n = p0[0][2]
+        if n < 2:
+            continue
+        m1, m2 = rng.sample(range(n), 2)
+        p0 = [p0[0], ["pbs", "c1", m1, m2, "p"], *p0[1:]]
+        c = build_circ(p0, {"p": lw.Parameter(0.5)})
+        if c is None or np.array(c.U_full).shape[0] > 7:
+            continue
+        sub_h = fg.herald_photons(c)
+        if sub_h > 1 or c.input_modes != n:
+            continue
+        break
+    else:
+        return None
+
+    def heralds(k: int) -> list:
+        ins_ = rng.sample(range(n), k)
+        outs_: list = []
+        for i in ins_:
+            cands = [m for m in range(n) if m not in outs_]
+            outs_.append(i if (i in cands and rng.random() < 0.5) else rng.choice(cands))
+        hs, budget = [], 2 - sub_h
+        for i, o in zip(ins_, outs_):
+            ph = rng.choice([0, 1, 1, 2])
+            ph = min(ph, budget)
+            budget -= ph
+            hs.append(["herald", "c1", ph, i, o])
+        return hs
+
+    def vary(hs: list) -> list:
+        hs = [list(h) for h in hs]
+        if not hs:
+            return [["herald", "c1", rng.choice([0, 1]) if sub_h < 2 else 0, rng.randrange(n), rng.randrange(n)]]
+        how = rng.choice(["photons", "out", "in", "swap_photons"] if len(hs) > 1 else ["photons", "out", "in"])
+        h = rng.choice(hs)
+        if how == "photons":
+            tot = sum(x[2] for x in hs) + sub_h
+            opts = [v for v in (0, 1, 2) if v != h[2] and tot - h[2] + v <= 2]
+            h[2] = rng.choice(opts) if opts else h[2]
+        elif how == "out":
+            free = [m for m in range(n) if m not in [x[4] for x in hs]]
+            if free:
+                h[4] = rng.choice(free)
+        elif how == "in":
+            free = [m for m in range(n) if m not in [x[3] for x in hs]]
+            if free:
+                h[3] = rng.choice(free)
+        else:
+            a, b = rng.sample(range(len(hs)), 2)
+            hs[a][2], hs[b][2] = hs[b][2], hs[a][2]
+        ctx.count(f"history:herald_variant:{how}")
+        return hs
+
+    k = min(rng.choice([0, 1, 1, 1, 2]), n - 1)
+    ha = heralds(k)
+    hb = vary(ha)
+    hc = vary(hb) if rng.random() < 0.5 else heralds(min(rng.choice([0, 1, 2]), n - 1))
+    a, b = rng.choice([q for q in cg.PYTH if 0 < q[1] < 1])
+    circuits = {"A": [*p0, *ha], "B": [*p0, *hb], "C": [*p0, *hc],
+                "L": [*p0, cg.op_loss("c1", rng.randrange(n), a, b), *ha]}
+    other = fg.gen_circuit(ctx, rng, max_depth=1, max_n=3, max_herald_photons=1)
+    circuits["Z"] = other
+    fam = {"circuits": circuits, "params": {"p": rng.choice([0.2, 0.5, 0.7])}}
+    meta = {}
+    for name, prog in list(circuits.items()):
+        cc = build_circ(prog, {"p": lw.Parameter(fam["params"]["p"])})
+        if cc is None or cc.input_modes < 1 or np.array(cc.U_full).shape[0] > 8 or fg.herald_photons(cc) > 2:
+            del circuits[name]
+            continue
+        first = prog[0]
+        meta[name] = (cc.input_modes, first[2] if first[0] == "new" else cc.input_modes)
+    if "A" not in circuits:
+        return None
+    return fam, meta
+
+
+def gen_history(ctx: Ctx, rng):
+    got = gen_family(ctx, rng)
+    if got is None:
+        return None
+    fam, meta = got
+
+    def inputs_for(im: int, nph=None) -> list:
+        if nph is None or rng.random() < 0.4:
+            nph = rng.choice([0, 1, 1, 2, 2])
+        ins = []
+        for _ in range(rng.choice([1, 1, 2, 3])):
+            s = fg.rand_state(rng, im, nph)
+            if s not in ins:
+                ins.append(s)
+        return ins
+
+    sh = {"circuit": "A", "inputs": inputs_for(meta["A"][0]), "rules": [], "ps_form": "rules", "pnr": rng.random() < 0.6}
+    sh["rules"] = gen_live_rules(rng, meta["A"][0], sum(sh["inputs"][0]))
+    init = json.loads(json.dumps(sh))
+
+    def reconf() -> list:
+        kind = rng.choice(["circuit", "circuit", "circuit", "inputs", "inputs", "ps", "ps", "pnr", "param", "mutate"])
+        im = meta[sh["circuit"]][0]
+        if kind == "circuit":
+            name = rng.choice([x for x in meta if x != sh["circuit"]] or list(meta))
+            nim = meta[name][0]
+            keep = nim == im and rng.random() < 0.6
+            ins = None if keep else inputs_for(nim, sum(sh["inputs"][0]))
+            nph = sum((ins or sh["inputs"])[0])
+            rules = None if (nim == im and rng.random() < 0.7) else gen_live_rules(rng, nim, nph)
+            sh["circuit"] = name
+            if ins is not None:
+                sh["inputs"] = ins
+            if rules is not None:
+                sh["rules"] = rules
+            return ["circuit", name, ins, rules, rng.choice(["circuit_first", "input_first"])]
+        if kind == "inputs":
+            sh["inputs"] = inputs_for(im, sum(sh["inputs"][0]))
+            return ["inputs", sh["inputs"]]
+        if kind == "ps":
+            sh["rules"] = gen_live_rules(rng, im, sum(sh["inputs"][0])) if rng.random() < 0.85 else \
+                gen_rules(rng, im, sum(sh["inputs"][0]))
+            return ["ps", sh["rules"], rng.choice(["rules", "rules", "fn"])]
+        if kind == "pnr":
+            sh["pnr"] = not sh["pnr"]
+            return ["pnr", sh["pnr"]]
+        if kind == "param":
+            return ["param", "p", rng.choice([0.0, 0.1, 0.35, 0.5, 0.9, 1.0])]
+        return ["mutate", cg.rand_prim_op(rng, "c1", meta[sh["circuit"]][1], p_invalid=0.0)]
+
+    def read(obj=None, method=None) -> list:
+        obj = obj or rng.choice(["qs", "qs", "smp", "smp", "an", "sim"])
+        return ["read", obj, method or rng.choice(READS[obj]), rng.randrange(10**6)]
+
+    steps: list = []
+    for _ in range(rng.randint(2, 5)):
+        if rng.random() < 0.55:  # patterned: read B, change, read A, read B on one object
+            obj = rng.choice(["qs", "qs", "smp", "smp", "an", "sim"])
+            a, b = rng.choice(READS[obj]), rng.choice(READS[obj])
+            steps += [read(obj, b), reconf()]
+            if rng.random() < 0.3:
+                steps.append(reconf())
+            steps += [read(obj, a), read(obj, b)]
+        else:
+            for _ in range(rng.randint(2, 6)):
+                steps.append(reconf() if rng.random() < 0.35 else read())
+    return {"kind": "history", "family": fam, "init": init, "steps": steps}
+
+
+# --------------------------------------------------------------------------- driver
+
+
+def _report(ctx: Ctx, case: dict, probs: list, shrink) -> None:
+    ctx.count("cases_with_problems")
+    scase = shrink(case)
+    runner = run_history if scase.get("kind") == "history" else run_case
+    sprobs = runner(ctx, scase) or probs
+    scase = {k: v for k, v in scase.items() if not k.startswith("_")}
+    oracle = [p for p in sprobs if p.startswith("oracle")]
+    if oracle:
+        ctx.violation(oracle[0], {"case": scase, "problems": sprobs}, sig={"kind": oracle[0][8:48]})
+    else:
+        ctx.disagreement(sprobs[0], {"case": scase, "problems": sprobs})
+
+
+def _shrink_prog(ctx: Ctx, case: dict) -> dict:
+    def still(sub):
+        return cg.well_formed(sub) and bool(run_case(ctx, {**case, "prog": sub}))
+
+    return {**case, "prog": ddmin(case["prog"], still, max_tests=120)}
+
+
+def _shrink_steps(ctx: Ctx, case: dict) -> dict:
+    def still(sub):
+        return bool(run_history(ctx, {**case, "steps": sub}))
+
+    return {**case, "steps": ddmin(case["steps"], still, max_tests=150)}
+
+
 def run(ctx: Ctx) -> None:
     ctx.rule = ("one configuration (tree-generated circuit with heralds of 0-2 photons and loss, 0-3 post-selection "
-                "rules, 1-3 equal-photon inputs, both detector modes), all four objects built; non-trivial = heralds "
-                "or loss or a rule present and >= 1 photon; distinct = distinct configuration")
-    N = ctx.n(140, 3000)
+                "rules, 1-3 equal-photon inputs, both detector modes, generated `expected` shapes), all four objects "
+                "built; or one history of reconfigurations and reads on four long-lived objects; non-trivial = heralds "
+                "or loss or a rule present and >= 1 photon (history: >= 1 read after a reconfiguration); distinct = "
+                "distinct configuration / history")
     rng = ctx.rng
+    streams = set((os.environ.get("C05_STREAMS") or "1,2,3,4").split(","))  # experiments only
+    if streams != {"1", "2", "3", "4"}:
+        ctx.notes.append(f"only streams {sorted(streams)} were run (C05_STREAMS)")
+    # 1. expected-mapping corpus
+    for case in expected_corpus(ctx) if "1" in streams else []:
+        probs = run_case(ctx, case)
+        ctx.count("corpus:expected")
+        ctx.case(json.dumps(case), True)
+        if probs:
+            _report(ctx, case, probs, lambda cs: _shrink_prog(ctx, cs))
+    # 2. history corpus
+    for case in history_corpus() if "2" in streams else []:
+        probs = run_history(ctx, case)
+        ctx.count("corpus:history")
+        ctx.case(json.dumps({k: v for k, v in case.items() if not k.startswith("_")}), case.get("_useful_reads", 0) > 0)
+        if probs:
+            _report(ctx, case, probs, lambda cs: _shrink_steps(ctx, cs))
+    # 3. generated configurations
+    N = ctx.n(140, 3000) if "3" in streams else 0
     done = 0
     while done < N and not ctx.out_of_time():
         case = gen_case(ctx, rng)
@@ -266,25 +1254,29 @@ def run(ctx: Ctx) -> None:
         ctx.case(json.dumps(case), sum(case["inputs"][0]) >= 1 and (lossy or bool(her) or bool(case["rules"])),
                  sample=case if done <= 2 else None)
         if probs:
-            ctx.count("cases_with_problems")
-
-            def still(sub):
-                return cg.well_formed(sub) and bool(run_case(ctx, {**case, "prog": sub}))
-
-            small = ddmin(prog, still, max_tests=120)
-            scase = {**case, "prog": small}
-            sprobs = run_case(ctx, scase) or probs
-            oracle = [p for p in sprobs if p.startswith("oracle")]
-            if oracle:
-                ctx.violation(oracle[0], {"case": scase, "problems": sprobs}, sig={"kind": oracle[0][8:48]})
-            else:
-                ctx.disagreement(sprobs[0], {"case": scase, "problems": sprobs})
+            _report(ctx, case, probs, lambda cs: _shrink_prog(ctx, cs))
+    # 4. generated histories (oracle-only)
+    H = ctx.n(120, 2500) if "4" in streams else 0
+    done = 0
+    while done < H and not ctx.out_of_time():
+        case = gen_history(ctx, rng)
+        if case is None:
+            ctx.count("history:skipped")
+            continue
+        done += 1
+        probs = run_history(ctx, case)
+        ctx.count("history:oracle-only")
+        ctx.case(json.dumps({k: v for k, v in case.items() if not k.startswith("_")}), case.get("_useful_reads", 0) > 0,
+                 sample={k: v for k, v in case.items() if not k.startswith("_")} if done <= 1 else None)
+        if probs:
+            _report(ctx, case, probs, lambda cs: _shrink_steps(ctx, cs))
 
 
 def replay(ctx: Ctx, path: str) -> None:
     data = json.load(open(path))["replay"]
-    probs = run_case(ctx, data["case"])
-    ctx.case("replay", True, sample=data["case"])
+    case = data["case"]
+    probs = run_history(ctx, case) if case.get("kind") == "history" else run_case(ctx, case)
+    ctx.case("replay", True, sample={k: v for k, v in case.items() if not k.startswith("_")})
     for p in probs:
         print("replay:", p)
         (ctx.violation(p, data, sig={"kind": "replay"}) if p.startswith("oracle") else ctx.disagreement(p, data))
